@@ -328,7 +328,7 @@ def run(ctx, prop):
     # that pushes fewer or more slots than it announces is seen as a memory error (ASan)
     from .. import benchlib as B
     from .bench_props import method_classes
-    for cov in (gen.coverage_case("C02-coverage"), gen.coverage_case2("C02-coverage2")):
+    for cov in (gen.coverage_case("C02-coverage"), gen.coverage_case2("C02-coverage2"), gen.coverage_case3("C02-coverage3")):
         # bundles that the C side reads through a padded struct (finding of C01/C03/C04, a memory
         # error under ASan by itself) say nothing about the envelope: leave those methods out
         for f_ in cov["files"]:
@@ -374,6 +374,40 @@ def run(ctx, prop):
                 if not excused:
                     st["oracle_fail"].append({"case": {"id": cov["id"], "last_call": lc}, "failures": [
                         {"kind": "bench-crash", "error": "walking the argument array by the announced counts is a memory error / crash", "rc": r["rc"], "stderr": r.get("stderr", "")[-400:]}]})
+    # ---- the bound holds for inherited methods too, wherever the ancestor is declared: a derived
+    # interface re-emits the methods of its ancestors with their counts
+    for n in (15, 16):
+        for d in ("in", "out"):
+            for place in ("same-file", "included", "included-twice-removed"):
+                wide = {"k": "method", "name": "wide", "optional": False, "doc": None,
+                        "params": [P(d, "buffer", None, f"b{i}") for i in range(n)] + [P("out" if d == "in" else "in", "uint32", None, "x")]}
+                root_i = {"k": "interface", "name": "IRootB", "base": None, "members": [wide]}
+                mid_i = {"k": "interface", "name": "IMidB", "base": "IRootB", "members": []}
+                leaf_i = {"k": "interface", "name": "ILeafB", "base": "IMidB", "members": [
+                    {"k": "method", "name": "own", "optional": False, "doc": None, "params": []}]}
+                if place == "same-file":
+                    files = [{"path": "main.idl", "nodes": [root_i, mid_i, leaf_i]}]
+                elif place == "included":
+                    files = [{"path": "main.idl", "nodes": [{"k": "include", "path": "base.idl"}, leaf_i]},
+                             {"path": "base.idl", "nodes": [root_i, mid_i]}]
+                else:
+                    files = [{"path": "main.idl", "nodes": [{"k": "include", "path": "mid.idl"}, leaf_i]},
+                             {"path": "mid.idl", "nodes": [{"k": "include", "path": "root.idl"}, mid_i]},
+                             {"path": "root.idl", "nodes": [root_i]}]
+                case = {"id": f"bound-inherited-{n}-{d}-{place}", "files": files, "main": "main.idl", "incdirs": []}
+                with C.Scratch() as tmp:
+                    root = os.path.join(tmp, "src")
+                    idl.render_case(case, root)
+                    rc, err = E.run_idlc(ctx, root, "main.idl", [], "c", os.path.join(tmp, "o.h"))
+                    model, impl = E.e1(ctx, case, root)
+                    ctx.bump("evaluations")
+                    vm = E.verdict_of(model) == "accept"
+                    if vm != (rc == 0) or vm != (E.verdict_of(impl) == "accept"):
+                        st["disagree"].append({"case": {"id": case["id"]}, "model_accepts": vm, "cli_exit": rc})
+                    if (n <= 15) != (rc == 0):
+                        st["oracle_fail"].append({"case": {"id": case["id"]}, "failures": [
+                            {"kind": "bound", "error": "accepted although an inherited method needs 16 arguments of one class" if rc == 0 else "rejected although every class fits",
+                             "cli_exit": rc, "stderr": err[-200:]}]})
     # every listed finding must still reproduce on the real code (else the list is stale)
     known_lines = []
     for k in F.load("C02"):
